@@ -998,6 +998,13 @@ func (t *TwinCase) Main() {
 	}
 }
 
+func (t *TwinCase) SetExplicitDefaults(on bool) {
+	t.Wrapped.SetExplicitDefaults(on)
+	if t.Flat != nil {
+		t.Flat.SetExplicitDefaults(on)
+	}
+}
+
 func (t *TwinCase) SetDocOrder(flowOrder int, flowsFirst bool) {
 	t.Wrapped.SetDocOrder(flowOrder, flowsFirst)
 	if t.Flat != nil {
